@@ -207,6 +207,39 @@ def run_bank(case):
     if abs(complex(gp) - tot.cfloat()) > bsum:
       return bad("freq_response:parallel", "parallel response must be the sum of the parts' responses",
                  {"w": w, "H": str(tot.cfloat())}, str(gp), nt)
+  # a bank that is used, then changed in place (+=, append, item assignment), then used again
+  if len(specs) >= 2:
+    for how in ("+=", "append", "extend", "setitem", "*="):
+      c2, p2 = CascadeFilter([mk(s) for s in specs[:-1]]), ParallelFilter([mk(s) for s in specs[:-1]])
+      c2.freq_response(0.7), p2.freq_response(0.7), c2.is_lti(), p2.is_lti()
+      want = specs
+      if how == "+=":
+        c2 += [mk(specs[-1])]; p2 += [mk(specs[-1])]
+      elif how == "append":
+        c2.append(mk(specs[-1])); p2.append(mk(specs[-1]))
+      elif how == "extend":
+        c2.extend([mk(specs[-1])]); p2.extend([mk(specs[-1])])
+      elif how == "setitem":
+        c2[0] = mk(specs[-1]); p2[0] = mk(specs[-1])
+        want = [specs[-1]] + specs[1:-1]
+      else:
+        c2 *= 2; p2 *= 2
+        want = specs[:-1] * 2
+      for w in (0.7, 2.1):
+        parts = [exact_H(s, w) for s in want]
+        if any(D.is_zero() or eD > D.abs() / 4 for N, D, eN, eD in parts):
+          continue
+        Hs = [N / D for N, D, eN, eD in parts]
+        prod, tot = C(1), C(0)
+        for H in Hs:
+          prod, tot = prod * H, tot + H
+        tolc = 1e-9 * (1 + prod.abs())
+        if abs(complex(c2.freq_response(w)) - prod.cfloat()) > tolc or \
+           abs(complex(p2.freq_response(w)) - tot.cfloat()) > 1e-9 * (1 + tot.abs()):
+          return bad("freq_response:bank-changed-in-place", "a cascade / parallel bank changed in place (%s) after "
+                     "having been used must respond as its current members" % how,
+                     {"w": w, "cascade": str(prod.cfloat()), "parallel": str(tot.cfloat())},
+                     {"cascade": str(c2.freq_response(w)), "parallel": str(p2.freq_response(w))}, nt)
   lst = cas.freq_response(list(ws[:4]))
   if not isinstance(lst, list) or len(lst) != 4:
     return bad("freq_response:container", "cascade response over a list must be a list", "list", type(lst).__name__, nt)
